@@ -384,6 +384,10 @@ def run(ctx):
     ctx.verify(eng, [ce.CONTRACTS[0], ce.CONTRACTS[3]])
     from contracts import c_checkers as ck
     ctx.verify(ck.engine(), ck.VERIFY)
+    ctx.verify(ck.compat_engine(), ck.VERIFY_COMPAT, min_obligations={ck.VERIFY_COMPAT[0].key: 16})
+    ctx.assumptions.append("check_bundles_compatible and resolve_bundleref_type are abstracted (assumed contracts: Valid "
+                           "only for compatible bundle types); check_instance's loops over the port dictionary are "
+                           "decided by the fault family")
     ck.pass_list_obligations(ctx)
     from contracts import c_portrefs
     ctx.verify(c_portrefs.engine(), [c_portrefs.VERIFY[1]])
